@@ -94,6 +94,13 @@ def forgeries(rng, agent, user, auth, priv, resp):
         rep = B.enc_scoped(ENGINE, b"", B.enc_pdu(0xA8, rid, 0, 0, vbs))
         out.append((label, UL.rebuild(m, flags=0, auth_params=b"", priv_params=b"", msg_data=rep)))
         out.append((label + "+user-empty", UL.rebuild(m, flags=0, user=b"", auth_params=b"", priv_params=b"", msg_data=rep)))
+    # unauthenticated messages carrying every other kind of PDU (the client does not look at the PDU
+    # type of what it takes for a response: none of them may get past the security model)
+    for tag in (0xA0, 0xA1, 0xA3, 0xA6, 0xA7):  # (0xA5 cannot even be decoded by x690: the wire-level suite has it)
+        sc = B.enc_scoped(ENGINE, b"", B.enc_pdu(tag, rid, 0, 0, [(OID, ["str", "666f72676564"])]))
+        for flags in (0, 4):
+            out.append((f"pdu-{tag:02x}-unauthenticated-flags={flags}", UL.rebuild(m, flags=flags, auth_params=b"", priv_params=b"", msg_data=sc)))
+        out.append((f"pdu-{tag:02x}-zero-digest", UL.rebuild(m, flags=1, auth_params=b"\x00" * 12, priv_params=b"", msg_data=sc)))
     if priv:
         out.append(("ciphertext+priv-flag-cleared", UL.rebuild(m, flags=1, msg_data=payload)))
         out.append(("salt-changed", UL.rebuild(m, priv_params=bytes(8), msg_data=payload)))
